@@ -21,6 +21,10 @@ pub struct Judge {
     pub refresh: bool,
     /// number of accepted / rejected publication points in the run metrics must equal the model's
     pub points: bool,
+    /// every local RRDP archive the model retains after a run must exist (C40: cleanup keeps what is
+    /// still needed); an archive the model dropped but the cache still holds ends the case as
+    /// `Dropped("rrdp-archive-model-desync")` (the model could not predict the next run)
+    pub archives: bool,
 }
 
 /// Which (ca, version, object) an item belongs to, over all versions of all CAs.
@@ -69,6 +73,9 @@ pub fn judge(j: &Judge, sc: &Scenario, info: &mut CaseInfo, mut extra: impl FnMu
         let exp = model_step(sc, step, &mut state);
         if std::env::var_os("RV_MODEL_DEBUG").is_some() {
             eprintln!("model step {}: accepted={:?} rejected={:?} skipped={:?} ta_local={:?} ta_store={:?} local_modules={:?} local={:?} stored={:?}", n, exp.accepted, exp.rejected, exp.skipped, state.ta_local, state.ta_store, state.local_modules, state.local, state.stored);
+            if uses_rrdp(sc) {
+                eprintln!("model step {}: rrdp={:?} via={:?} fetched={:?} rrdp_local={:?}", n, exp.rrdp, exp.via, exp.fetched, state.rrdp_local);
+            }
         }
         let out = match world.run_with(step.offline, &exceptions, |c| {
             if let Some(st) = step.stale {
@@ -94,7 +101,7 @@ pub fn judge(j: &Judge, sc: &Scenario, info: &mut CaseInfo, mut extra: impl FnMu
                 let mut key = format!("{}/unexpected-item", id);
                 if let Some((ca, v, _)) = owners.get(extra_item) {
                     let used = exp.accepted.get(ca).map(|x| x.0);
-                    let fetched = state.local.get(ca).copied();
+                    let fetched = if sc.cas[*ca].rrdp.is_some() { exp.fetched.get(ca).copied() } else { state.local.get(ca).copied() };
                     if used != Some(*v) && fetched == Some(*v) && used.is_some() {
                         // items of the model's version served as well => two versions mixed; else the wrong version was used
                         let mixed = served.iter().any(|it| owners.get(it).map(|(c2, v2, _)| c2 == ca && Some(*v2) == used).unwrap_or(false));
@@ -151,6 +158,22 @@ pub fn judge(j: &Judge, sc: &Scenario, info: &mut CaseInfo, mut extra: impl FnMu
                 }
             }
         }
+        if j.archives {
+            for r in rrdp_repos(sc) {
+                let path = rrdp_archive_path_in(&world.cache(), r);
+                match (path.exists(), state.rrdp_local.contains(&r)) {
+                    (false, true) => {
+                        verdict = Verdict::fail(format!("{}/rrdp-archive-lost", id), format!("step {}: the local copy of RRDP repository {} is gone although it was updated or tried in this run or a stored point refers to it (outcomes {:?}, stored {:?})", n, r, exp.rrdp, state.stored));
+                        break 'steps;
+                    }
+                    (true, false) => {
+                        verdict = Verdict::Dropped("rrdp-archive-model-desync".into());
+                        break 'steps;
+                    }
+                    _ => {}
+                }
+            }
+        }
         if j.points {
             let p = &out.metrics.publication;
             if p.valid_points as usize != exp.accepted.len() || p.rejected_points as usize != exp.rejected.len() {
@@ -192,4 +215,62 @@ pub fn judge(j: &Judge, sc: &Scenario, info: &mut CaseInfo, mut extra: impl FnMu
         info.class("clean");
     }
     verdict
+}
+
+/// What the model saw of the RRDP code path over the steps of one scenario.
+#[derive(Clone, Debug, Default)]
+pub struct RrdpSeen {
+    /// a CA published through RRDP was attempted (its certificate chain was accepted) in some run
+    pub attempted: bool,
+    /// ... and collected through an updated RRDP repository
+    pub updated: bool,
+    /// ... and left without transport because the update failed with a local copy (stored data used)
+    pub current: bool,
+    /// ... and collected through rsync because the repository was unavailable
+    pub fallback: bool,
+    /// ... and left without transport because the repository was unavailable under policy `never`
+    pub unavailable_never: bool,
+    /// a point of an RRDP CA was accepted from the store in an online run
+    pub stored_used: bool,
+    /// a point collected through RRDP was refused (incomplete / invalid / not newer) in some run
+    pub refused_update: bool,
+}
+
+/// `judge` for scenarios with RRDP repositories: additionally reports what the model saw of the RRDP
+/// code path and labels the case with it.
+pub fn judge_rrdp(j: &Judge, sc: &Scenario, info: &mut CaseInfo, mut extra: impl FnMut(&mut World, &StepObs) -> Option<Verdict>) -> (Verdict, RrdpSeen) {
+    let mut seen = RrdpSeen::default();
+    let v = judge(j, sc, info, |w, obs| {
+        for (ca, via) in &obs.exp.via {
+            if sc.cas[*ca].rrdp.is_none() {
+                continue;
+            }
+            seen.attempted = true;
+            let outcome = sc.cas[*ca].rrdp.and_then(|r| obs.exp.rrdp.get(&r).copied());
+            match (via, outcome) {
+                (Via::Rrdp, _) => seen.updated = true,
+                (Via::RsyncFallback, _) => seen.fallback = true,
+                (Via::Nothing, Some(RrdpOutcome::Current)) => seen.current = true,
+                (Via::Nothing, Some(RrdpOutcome::Unavailable)) => seen.unavailable_never = true,
+                _ => {}
+            }
+            if !obs.step.offline && matches!(obs.exp.accepted.get(ca), Some((_, false))) {
+                seen.stored_used = true;
+            }
+            if *via == Via::Rrdp && obs.exp.fetched.contains_key(ca) && !matches!(obs.exp.accepted.get(ca), Some((_, true))) && obs.exp.fetched.get(ca) != obs.exp.accepted.get(ca).map(|x| &x.0) {
+                seen.refused_update = true;
+            }
+        }
+        extra(w, obs)
+    });
+    for (yes, label) in [(seen.updated, "rrdp:updated"), (seen.current, "rrdp:failed_current_copy"), (seen.fallback, "rrdp:fallback_rsync"), (seen.unavailable_never, "rrdp:unavailable_policy_never"), (seen.stored_used, "rrdp:stored_point_used"), (seen.refused_update, "rrdp:update_refused")] {
+        if yes {
+            info.class(label);
+        }
+    }
+    info.class(format!("rrdp:policy_{}", ["never", "stale", "new"][(sc.cfg.rrdp_fallback as usize).min(2)]));
+    if !seen.attempted {
+        info.class("rrdp:no_rrdp_ca_attempted");
+    }
+    (v, seen)
 }
